@@ -549,11 +549,12 @@ Proof.
 Qed.
 
 Lemma delegate_ok r all p x t : View r all p -> skipn p all = x ++ t ->
-  exists sub r' hid, delegate r (Z.of_nat (length x)) = Ok (sub, r') /\ View sub (hid ++ x) (length hid) /\ View r' all (p + length x).
+  exists sub r' hid, delegate r (Z.of_nat (length x)) = Ok (sub, r') /\ length hid <= p /\
+                     View sub (hid ++ x) (length hid) /\ View r' all (p + length x).
 Proof.
   intros V H. pose proof V as (Hwf & Ea & Ep). subst all p. destruct r as [b q|w s q].
   - simpl in *. rewrite (br_take b q x t Hwf H). rewrite Nat2Z.id. rewrite (firstn_skipn_eq _ _ _ _ H).
-    exists (BR x 0), (BR b (q + length x)), []. split; [reflexivity|]. split; [apply view_br; simpl; nlia|].
+    exists (BR x 0), (BR b (q + length x)), []. split; [reflexivity|]. split; [simpl; nlia|]. split; [apply view_br; simpl; nlia|].
     apply view_br. apply (skipn_eq_app _ _ _ _ Hwf H).
   - rewrite wr_pos_off in *. cbn [all_bytes] in *. destruct Hwf as [Hs Hok]. unfold delegate.
     pose proof (wr_rest_eq _ _ _ _ _ Hs Hok H) as Hr.
@@ -562,14 +563,14 @@ Proof.
     rewrite nth_error_skipn_hd.
     destruct (skipn s w) as [|cur rest] eqn:Ec.
     + simpl in Hr. rewrite skipn_nil in Hr. destruct x; [|discriminate].
-      exists (BR [] 0), (WR w s q), []. split; [reflexivity|]. split; [apply view_br; simpl; nlia|].
+      exists (BR [] 0), (WR w s q), []. split; [reflexivity|]. split; [simpl; nlia|]. split; [apply view_br; simpl; nlia|].
       simpl. rewrite Nat.add_0_r. exact V.
     + rewrite Htake. simpl in Hok. cbn [concat] in Hr. rewrite skipn_app_le in Hr by nlia.
       destruct (Z.of_nat q + Z.of_nat (length x) <=? Z.of_nat (length cur))%Z eqn:Efit.
       * replace (length cur <? q) with false by (symmetry; apply Nat.ltb_ge; nlia). rewrite Nat2Z.id.
         assert (Hx : firstn (length x) (skipn q cur) = x).
         { rewrite <- (firstn_app_le _ (concat rest)) by (rewrite skipn_length; nlia). rewrite Hr. rewrite firstn_app_le by nlia. apply firstn_all. }
-        rewrite Hx. exists (BR x 0), (WR w s (q + length x)), []. split; [reflexivity|]. split; [apply view_br; simpl; nlia|].
+        rewrite Hx. exists (BR x 0), (WR w s (q + length x)), []. split; [reflexivity|]. split; [simpl; nlia|]. split; [apply view_br; simpl; nlia|].
         pose proof (wr_advance w s 0 (q + length x) (q + length x) Hs) as Ha.
         rewrite Nat.add_0_r in Ha. unfold off in *. rewrite Ec in Ha. simpl in Ha.
         replace (length (concat (firstn s w)) + q + length x) with (length (concat (firstn s w)) + (q + length x)) by nlia.
@@ -596,7 +597,7 @@ Proof.
         destruct (p' =? length c1) eqn:Eend.
         -- apply Nat.eqb_eq in Eend.
            exists (WR (firstn (S (s + k)) w) s q), (WR w (s + k) p'), (firstn (off w s q) (concat w)).
-           split; [reflexivity|]. split; [|exact Vr].
+           split; [reflexivity|]. split; [rewrite firstn_length; nlia|]. split; [|exact Vr].
            assert (Hall : concat (firstn (S (s + k)) w) = firstn (off w s q) (concat w) ++ x).
            { rewrite <- (firstn_add_skipn _ _ t) by assumption.
              destruct Vr as (_ & _ & Hpos). rewrite wr_pos_off in Hpos. rewrite <- Hpos. unfold off. rewrite Eend.
@@ -627,7 +628,7 @@ Proof.
            replace (rev (firstn p' c1 :: rev (skipn q cur :: mid))) with ((skipn q cur :: mid) ++ [firstn p' c1])
              by (change (rev (firstn p' c1 :: rev (skipn q cur :: mid))) with (rev (rev (skipn q cur :: mid)) ++ [firstn p' c1]); rewrite rev_involutive; reflexivity).
            exists (new_wire_reader ((skipn q cur :: mid) ++ [firstn p' c1])), (WR w (s + k) p'), [].
-           split; [reflexivity|]. split; [|exact Vr].
+           split; [reflexivity|]. split; [simpl; nlia|]. split; [|exact Vr].
            assert (Hcat : concat ((skipn q cur :: mid) ++ [firstn p' c1]) = x).
            { rewrite concat_app. cbn [concat]. rewrite app_nil_r. rewrite <- app_assoc.
              pose proof (between_lt [] mid post cur c1 q p' Hok Hok') as Hb. cbn [concat app length Nat.add] in Hb.
